@@ -223,8 +223,9 @@ func newDateTime(argumentList []Value, location *Time.Location) float64 {
 			return math.NaN()
 		}
 
-		if year >= 0 && year <= 99 {
-			year += 1900
+		// 15.9.3.1 step 8: the window is tested on ToInteger(year).
+		if y := math.Trunc(year); y >= 0 && y <= 99 {
+			year = 1900 + y
 		}
 
 		time := Time.Date(int(year), dateToGoMonth(int(month)), int(day), int(hour), int(minute), int(second), int(millisecond)*1000*1000, location)
